@@ -6,6 +6,7 @@ package logicalplan
 
 // A FilteredSelector always wraps a selector (established where it is built, replaceMatchers).
 //@ typeinv *logicalplan.FilteredSelector f: f.VectorSelector != nil
+//@ typeinv *logicalplan.FilteredSelector f: forall i in 0..len(f.Filters) :: f.Filters[i] != nil
 // A RemoteExecution node always carries the engine it is to be sent to (makeSubQueries).
 //@ typeinv *logicalplan.RemoteExecution r: r.Engine != nil
 
